@@ -61,6 +61,15 @@ chk("C12", "model_checking",
     "TLA+ spec (UriAlgebra) model-checked by TLC; exhaustive spec->impl replay; impl->spec trace validation",
     "DESIGN.md §3 C12")
 
+chk("C15", "model_checking",
+    "The Slurm specification states the drop rule per kind and transcribes the implementation's decision tables; TLC checks their "
+    "equivalence for every filter list of up to 2/3 filters over every present/absent criteria combination against every payload "
+    "item; every state is replayed as a real SlurmFile (drop_payload, JSON round trip, assertion payload fields) in two address "
+    "renderings; random files with full-size values are validated by Trace_Slurm.",
+    "Finite abstraction at which the statement is phrased (criteria present/absent, covers / equal); TLC/SANY.",
+    "TLA+ spec (Slurm) model-checked by TLC; exhaustive spec->impl replay; impl->spec trace validation",
+    "DESIGN.md §3 C15")
+
 ALL = ["C%02d" % i for i in range(1, 18)]
 
 
